@@ -39,7 +39,7 @@ FIT_FLOOR = 0.020       # points below 20 ms do not enter the fit
 CONFIRM_MIN = 1.0       # an EDA witness is confirmed if some n takes more than 1 s ...
 CONFIRM_RATIO = 1.8     # ... and time grows at least 1.8x per added pump
 CONFIRM_KILL = 3.3      # >= CONFIRM_RATIO^2 * CONFIRM_MIN: with steps of 2 pumps a killed job always decides the ratio test
-TOTAL_CAP = {'quick': 24, 'thorough': 80}   # reported families over all stages (then later stages are skipped)
+TOTAL_CAP = {'quick': 16, 'thorough': 80}   # reported families over all stages (then later stages are skipped)
 CAP = 30                # stop a stage after this many violating families (broken trees would take hours)
 
 _CTX = {}
@@ -372,7 +372,10 @@ def _over(chk, stats, label):
     n = len(chk.violations) + sum(chk.known_hits.values())
     if n >= TOTAL_CAP[chk.tier]:
         if label:
-            stats['truncated'].append('%s skipped: %d violating families already reported' % (label, n))
+            stats['skipped_stages'] = stats.get('skipped_stages', 0) + 1
+            if stats['skipped_stages'] == 1:
+                stats['truncated'].append('%s and later stages skipped: %d violating families already reported' % (
+                    label, n))
         return True
     return False
 
@@ -397,7 +400,7 @@ def _judge(h, L, t, killed):
 def measure(chk, pool, fams, kind, label, stats, big=True, group=None, deep_all=True):
     """fams: list of (prefix, unit, terminator).  kind: ('compile',) or ('regex', pattern index, method).
     Gates: small (<= 64 chars, < 2 s CPU) and growth (exponent <= 3.5 up to n = 2000).
-    deep_all=False: every family climbs to n = 250; beyond that only one family in four (by digest) and every
+    deep_all=False: every family climbs to n = 250; beyond that only every second family (by digest) and every
     family that is not already fast at 250 (an exponential with base >= 1.05 shows by then)."""
     group = group or label
     what = 'compile()' if kind[0] == 'compile' else label
@@ -447,7 +450,7 @@ def measure(chk, pool, fams, kind, label, stats, big=True, group=None, deep_all=
     # conclusive), the gap between the last completed n and the killed n is bisected (geometric midpoint).
     lad = {f: ladder(f) for f in alive}
     hist = {f: [smallpt[f] + (False,)] for f in alive}      # (length, cpu, killed)
-    deep = {f: deep_all or int(_h(f[0] + '\x00' + f[1] + '\x00' + f[2]), 16) % 4 == 0 for f in alive}
+    deep = {f: deep_all or int(_h(f[0] + '\x00' + f[1] + '\x00' + f[2]), 16) % (1 if deep_all else 2) == 0 for f in alive}
     st = {f: {'i': 0, 'lo': small_n(f), 'hi': None, 'ref': 0} for f in alive}
 
     def next_n(f):
@@ -591,7 +594,11 @@ def confirm(chk, pool, cands, pats, stats):
         return ('regex', c['pi'], p.via, text)
     state = {}
     confirmed = {}
-    for kills in (KILLS[:2], KILLS[2:]):         # end of input and '$' first; the other terminators only if needed
+    for npass, kills in enumerate((KILLS[:2], KILLS[2:])):         # end of input and '$' first; the other terminators only if needed
+        if npass == 1 and chk.tier == 'quick' and confirmed:
+            stats['truncated'].append('quick tier: unconfirmed candidates were only tried with the terminators %r' % (
+                KILLS[:2],))
+            break
         for ci, c in enumerate(cands):
             for k in kills:
                 state[(ci, k)] = {'hist': [], 'alive': True}
@@ -600,6 +607,9 @@ def confirm(chk, pool, cands, pats, stats):
             keys = [(ci, k) for ci in range(len(cands)) for k in kills
                     if state[(ci, k)]['alive'] and ci not in confirmed]
             if not keys:
+                break
+            if len(confirmed) >= TOTAL_CAP[chk.tier]:
+                stats['truncated'].append('confirmation stopped after %d confirmed candidates' % len(confirmed))
                 break
             jobs = [job(cands[ci], n, k) for (ci, k) in keys]
             res = pool.run(jobs, CONFIRM_KILL, batch=4 if n > 12 else 16)
